@@ -83,6 +83,8 @@ struct FactoryState {
   int sources_alive = 0;
   int overlapping_source_reads = 0;
   std::vector<std::string> task_op;  // per task: the name argument of the load in progress ("" if none)
+  int reenter = 0;                   // what the factory itself does with cctz while it runs: 0 nothing, 1 fixed_time_zone, 2 loads another name, 3 local_time_zone, 4 format/lookup on UTC
+  std::string reenter_name;          // mode 2: the other name (served from the catalogue)
   std::string wildcard_prefix;       // names starting with this (and not in the catalogue) are served wildcard_entry
   CatEntry wildcard_entry;
 };
